@@ -193,7 +193,6 @@ func raceMain(args []string) int {
 		jitter, _ = strconv.Atoi(args[1])
 	}
 	outcomes := make([][]string, len(scen))
-	ids := sync.Map{}
 	sr := &sharedReader{draws: map[int][]byte{}}
 	sr.who = func() int { return 0 }
 	usesShared := strings.Contains(args[0], "NS:")
@@ -202,7 +201,6 @@ func raceMain(args []string) int {
 		// scenarios only serve race detection here, their results are not judged
 		bip39.VerifSwapRandSource(sr)
 	}
-	_ = ids
 	var start, wg sync.WaitGroup
 	start.Add(1)
 	for i := range scen {
